@@ -2615,3 +2615,14 @@ m("C15", "refactor-filename-length-prefixed", "template.py",
 m("C03", "pi-name-word-characters-only", "parser.py",
   r"""    r'^<\?(?P<name>[^\s?]+)(?P<text>.*?)\?>', re.DOTALL)""",
   r"""    r'^<\?(?P<name>[\w.:-]+)(?P<text>.*?)\?>', re.DOTALL)""")
+
+
+# ---- fix 1f8265f: 'lambda:' is no expression type
+for _p in ("C04",):
+    m(_p, "prefix-takes-lambda", "tales.py",
+      r"match_prefix = re.compile(r'^\s*(?!lambda:)([a-z][a-z0-9\-_]*):').match",
+      r"match_prefix = re.compile(r'^\s*([a-z][a-z0-9\-_]*):').match")
+    m(_p, "refactor-prefix-lookahead-inside-group", "tales.py",
+      r"match_prefix = re.compile(r'^\s*(?!lambda:)([a-z][a-z0-9\-_]*):').match",
+      r"match_prefix = re.compile(r'^\s*(?!lambda:)([a-z][-a-z0-9_]*):').match",
+      expect="silent")
